@@ -224,17 +224,26 @@ func (w *World) checkAssignIndex(spec *FieldSpec) {
 		want = append(want, spec.get(r))
 	}
 	sort.Slice(want, func(i, j int) bool { return cmp3(want[i], want[j]) > 0 })
+	for _, prefilled := range []bool{false, true} {
+		w.checkAssignIndexInto(spec, want, prefilled)
+	}
+}
+
+// checkAssignIndexInto: prefilled = the target already holds more elements than
+// the collection (a re-used or pre-sized buffer): they must not survive.
+func (w *World) checkAssignIndexInto(spec *FieldSpec, want []interface{}, prefilled bool) {
 	var target interface{}
 	if spec.Path == "T" {
-		target = &[]timeT_{}
+		target = newTimeSlice()
 	} else {
 		target = assignIndexTarget(spec)
 	}
 	if target == nil {
 		return
 	}
-	if spec.Path == "T" {
-		target = newTimeSlice()
+	if prefilled {
+		tv := reflect.ValueOf(target).Elem()
+		tv.Set(reflect.MakeSlice(tv.Type(), len(want)+2, len(want)+3))
 	}
 	if err := w.DB.AssignIndex(&Rec{}, spec.Path, target); err != nil {
 		w.fail("assignindex-err|"+spec.Path, "AssignIndex("+spec.Path+") failed: "+err.Error())
